@@ -54,19 +54,17 @@ let asis_answer b p m op args =
   let rawv (s, e) = hx s ^ " " ^ hx e ^ " NoFlag" in
   let rawvr = function Ok v -> Some (rawv v) | _ -> None in
   (* the digit estimates must not matter: the pinned models are run with the exact and the worst estimate *)
-  let indep f g r = if show (f b p m (a 3) (a 4) (a 5) (a 6)) = show (g b p m (a 3) (a 4) (a 5) (a 6)) then Some r else Some ("estimate-dependent " ^ r) in
+  let indep f g r = if resa (f b p m (a 3) (a 4) (a 5) (a 6)) = resa (g b p m (a 3) (a 4) (a 5) (a 6)) then r else (match r with Some r -> Some ("estimate-dependent " ^ r) | None -> Some "estimate-dependent") in
   let sg_of o = if String.length o >= 3 && String.sub o 0 3 = "sub" then Negative else Positive in
   match op with
-  | "add" | "addl" -> indep ctx_add_x ctx_add_x1 (raw (ctx_add_n_x b p m (a 3) (a 4) (a 5) (a 6)))
-  | "sub" | "subl" -> indep ctx_sub_fixed_x ctx_sub_fixed_x1 (raw (ctx_sub_n_x b p m (a 3) (a 4) (a 5) (a 6)))
-  | "mul" | "mull" -> Some (raw (ctx_mul_n b p m (a 3) (a 4) (a 5) (a 6)))
-  | "sqr" | "sqrl" -> Some (raw (ctx_sqr_n b p m (a 3) (a 4)))
-  | "cubic" | "cubicl" -> Some (raw (ctx_cubic_n b p m (a 3) (a 4)))
-  | "div" | "divl" ->
-      let r = resa (ctx_div_x b p m (a 3) (a 4) (a 5) (a 6)) in
-      if resa (ctx_div_x1 b p m (a 3) (a 4) (a 5) (a 6)) <> r then Some ("estimate-dependent " ^ r)
-      else rawr (ctx_div_n_x b p m (a 3) (a 4) (a 5) (a 6))
-  | "inv" | "invl" -> rawr (ctx_inv_n b p m (a 3) (a 4))
+  (* round 4: the models of the REPAIRED add.rs / mul.rs / div.rs (Float/FixModel.v), with every Repr::new *)
+  | "add" | "addl" -> indep ctx_add_fix_x ctx_add_fix_x1 (rawr (ctx_add_fix_n_x b p m (a 3) (a 4) (a 5) (a 6)))
+  | "sub" | "subl" -> indep ctx_sub_fix_x ctx_sub_fix_x1 (rawr (ctx_sub_fix_n_x b p m (a 3) (a 4) (a 5) (a 6)))
+  | "mul" | "mull" -> Some (raw (ctx_mul_fix_n b p m (a 3) (a 4) (a 5) (a 6)))
+  | "sqr" | "sqrl" -> Some (raw (ctx_sqr_fix_n b p m (a 3) (a 4)))
+  | "cubic" | "cubicl" -> Some (raw (ctx_cubic_fix_n b p m (a 3) (a 4)))
+  | "div" | "divl" -> rawr (repr_div_fix_n b p m (a 3) (a 4) (a 5) (a 6))
+  | "inv" | "invl" -> rawr (ctx_inv_fix_n b p m (a 3) (a 4))
   | "sqrt" | "sqrtl" -> rawr (ctx_sqrt_n b p m (a 3) (a 4))
   | "rem" -> rawr (repr_rem_n b p m (a 3) (a 4) (a 5) (a 6))
   | s when pre "rem" s -> resv (fbig_rem b p p m (a 3) (a 4) (a 5) (a 6))
@@ -89,9 +87,9 @@ let asis_answer b p m op args =
   | "divprim_fi" -> resv (div_float_prim b p m (a 3) (a 4) (n ()))
   | "divprim_if" -> resv (div_prim_float b p m (n ()) (a 3) (a 4))
   | s when pre "mulp" s -> Some (showv (fbig_mul b p (p2 ()) m (a 3) (a 4) (a 5) (a 6)))
-  | s when pre "divp" s -> resv (fbig_div b p (p2 ()) m (a 3) (a 4) (a 5) (a 6))
+  | s when pre "divp" s -> resv (fbig_div_fix b p (p2 ()) m (a 3) (a 4) (a 5) (a 6))
   | "mul_vv" | "mul_vr" | "mul_rv" | "mul_rr" | "mul_assign" -> Some (showv (fbig_mul b p p m (a 3) (a 4) (a 5) (a 6)))
-  | "div_vv" | "div_vr" | "div_rv" | "div_rr" | "div_assign" -> resv (fbig_div b p p m (a 3) (a 4) (a 5) (a 6))
+  | "div_vv" | "div_vr" | "div_rv" | "div_rr" | "div_assign" -> resv (fbig_div_fix b p p m (a 3) (a 4) (a 5) (a 6))
   | "add_vv" | "add_assign" -> opv add_val_val_x Positive
   | "add_vr" -> opv add_val_ref_x Positive
   | "add_rv" -> opv add_ref_val_x Positive
@@ -159,17 +157,20 @@ let judge op args got =
   let neg_root = base_op = "sqrt" && Zar.sign (fst x1) < 0 in
   (* the finding classes of operands longer than the precision (Float/LongModel.v), on the stored (normalised) operands *)
   let nz i = normalize b (z (List.nth args i), z (List.nth args (i + 1))) in
-  let known_class () =
-    if not long_op then None else
+  (* the classes of the two former findings (round 3), both repaired in round 4: nothing is excused any more, the
+     class only tags the case in the histogram so that the evidence shows that the generators reach it *)
+  let former_class () =
+    if not long_op then "" else
     let (s1, e1) = nz 3 in
-    match op with
-    | "addl" -> let (s2, e2) = nz 5 in if add_short_class b p s1 e1 s2 e2 Positive then Some "add_overlong_cancellation" else None
-    | "subl" -> let (s2, e2) = nz 5 in if add_short_class b p s1 e1 s2 e2 Negative then Some "add_overlong_cancellation" else None
-    | "mull" -> let (s2, _) = nz 5 in if mul_long_class b p s1 s2 then Some "overlong_operand_double_rounding" else None
-    | "divl" -> let (s2, _) = nz 5 in if div_long_class b p s1 s2 then Some "overlong_operand_double_rounding" else None
-    | "sqrl" -> if sqr_long_class b p s1 then Some "overlong_operand_double_rounding" else None
-    | "cubicl" -> if cubic_long_class b p s1 then Some "overlong_operand_double_rounding" else None
-    | _ -> None in
+    let c = match op with
+    | "addl" -> let (s2, e2) = nz 5 in add_short_class b p s1 e1 s2 e2 Positive
+    | "subl" -> let (s2, e2) = nz 5 in add_short_class b p s1 e1 s2 e2 Negative
+    | "mull" -> let (s2, _) = nz 5 in mul_long_class b p s1 s2
+    | "divl" -> let (s2, _) = nz 5 in div_long_class b p s1 s2
+    | "sqrl" -> sqr_long_class b p s1
+    | "cubicl" -> cubic_long_class b p s1
+    | _ -> false in
+    if c then "formerclass-" else "" in
   if divides_by_zero then expect ~extra:"cls=div0" "panic DivideBy0" got
   else if neg_root then expect ~extra:"cls=negroot" "panic RootNegative" got
   else if base_op = "diveuc" then begin
@@ -207,17 +208,13 @@ let judge op args got =
         else
           let ok = check_contract b p m x (z s) (isz e) (flag_of f) in
           let exact = (cmp_kx b Zar.one x (z s) (isz e) = Eq) in
-          let cls = (if long_op then "long-" else "") ^ (if euclid_family then base_op ^ "-" else "") ^ (if exact then "exact" else "inexact") ^ "-" ^ f in
+          let cls = (if long_op then "long-" ^ former_class () else "") ^ (if euclid_family then base_op ^ "-" else "") ^ (if exact then "exact" else "inexact") ^ "-" ^ f in
           let asis = asis_answer b p0 m (if base_op = "divremeuc" then "remeuc_" else op) args in
           let same = (asis = Some (s ^ " " ^ e ^ " " ^ f)) in
           let fid = match asis with Some _ -> if same then " asis=same" else " asis=diff" | None -> "" in
           let fid = fid ^ add_path_of b p (if long_op then "" else op) args in
           if ok then pass ~extra:("cls=" ^ cls ^ fid) ()
-          else begin
-            match known_class () with
-            | Some tag when same -> { (known tag (match asis with Some w -> w | None -> "")) with extra = "cls=known-" ^ tag ^ fid }
-            | _ -> { v = "fail"; extra = "contract-violated cls=" ^ cls }
-          end
+          else { v = "fail"; extra = "contract-violated cls=" ^ cls ^ fid }
     | _ -> fail "ok-sig-exp-flag-prec"
 
 let () = serve judge
